@@ -16,6 +16,7 @@ import (
 	"time"
 
 	"verif/sim/checks"
+	"verif/sim/prng"
 )
 
 type Job struct {
@@ -79,10 +80,20 @@ func wedgeClass(dump string) string {
 
 func startWatchdog(limit time.Duration) {
 	go func() {
+		lastBeat, lastChange := int64(-1), time.Now()
 		for {
 			time.Sleep(500 * time.Millisecond)
 			st := runStarted.Load()
-			if st == 0 || time.Since(time.Unix(0, st)) < limit {
+			if st == 0 {
+				lastBeat, lastChange = -1, time.Now()
+				continue
+			}
+			// a run that keeps reaching quiescent points is slow, not wedged (a loaded machine, heavy crypto); the limit
+			// applies to the time WITHOUT a new quiescent point, and twenty times the limit to the run as a whole
+			if hb := prng.Heartbeat.Load(); hb != lastBeat {
+				lastBeat, lastChange = hb, time.Now()
+			}
+			if time.Since(lastChange) < limit && time.Since(time.Unix(0, st)) < 20*limit {
 				continue
 			}
 			buf := make([]byte, 4<<20)
